@@ -44,6 +44,21 @@ CHECKS = {
  "C20": ("exploration", E2,
          "Every tensor of depth 1-3 over small shapes (stored-empty fibers, absent fibers and the all-zero tensor included) x all 3^depth descriptors over {U,C,B} x shape argument {none, own, own+1} (+ mask-word boundary shapes 31..65) is encoded by the real Codec driven as swoop_util does with a stub cache; an independent decoder of the documented layouts must reproduce the content, scanning each encoded fiber through its handle API must yield the decoded elements, coordToHandle must return the first stored coordinate >= q for every q, getSize must equal the stored word count, and child links of U fibers must address the right child.",
          "Trusted: the layout decoder mc/ref_c20.py (calibrated on 11 688 encodes, probe q24); getSize is a regression oracle; child links of C/B fibers are not demanded (see DESIGN.md).", "DESIGN.md §3 C20"),
+ "C09": ("exploration", E2,
+         "Every tree of T2(3,2) (thorough T2(3,3)), T3(2,2,2), a depth-4 family and the empty tensor, as tensor with declared / estimated shape and as raw fiber, is run through swizzleRanks for every permutation and back, swapRanks at every depth twice, flattenRanks for every (depth, levels) x 5 styles followed by unflattenRanks for the invertible ones, mergeRanks absolute/relative with sum and max, split followed by flatten-absolute, the *Below forms and updateCoords / updatePayloads at every depth; content(result) must equal the image of the original content under the stated coordinate map, inverses must restore it, and every result must be well-formed with mirrored rank lists.",
+         "Trusted: the coordinate-map oracle mc/ref_c09.py (no fibertree import); flatten absolute/relative with colliding elements raises by design and is not judged.", "DESIGN.md §3 C09"),
+ "C11": ("exploration", E2,
+         "All 14 binary and 5 in-place operators over 7 operand-kind pairs (box/scalar/element combinations) on a value alphabet of ints and floats are compared with the same Python operator on the raw values (value and exact type; in-place forms must return and update the same box; <<= replaces the value); every ordered pair of F1(4,{1,2}) and every scalar in {0,1,2,-1} for fiber + * += *= radd rmul against dense vectors, with the in-place form's content compared with the value-returning form's. A form is demanded only where the class defines (or at the pinned tree defined) the dunder; the list is recorded so a deletion is reported.",
+         "Trusted: Python's operator module on raw values; operator forms no class ever defined are executed but not demanded.", "DESIGN.md §3 C11"),
+ "C12": ("exploration", E2,
+         "a == b iff content(a) == content(b) on ALL ordered pairs of F1(4,{1,2}), T2(2,2,{1,2}) (83 521 pairs), T3(2,2,1) and a one-edit neighbourhood slice of T3(2,2,2), in unowned / tensor-owned / mixed variants with different declared shapes and non-zero defaults; all ordered triples of F1(3) for reflexivity, symmetry, transitivity; isEmpty, countValues, nonEmpty (equal content, no explicit default, no empty sub-fiber), deepcopy on every tree; operands, tensors and rank lists unchanged by every comparison.",
+         "Trusted: independent content extraction from the tree spec.", "DESIGN.md §3 C12"),
+ "C13": ("exploration", E2,
+         "Every rectangular nest of the stated shapes (depth 1-4, ints and floats, zero and non-zero leaf default, all-default nests and unit dimensions included) through Fiber/Tensor.fromUncompressed (content, shape, no stored defaults) and uncompress with own/imposed shape; YAML dump/load and fiber2dict/dict2fiber round trips of every such tensor/fiber, rank-0 tensors, named tensors and tensors after one transform (flatten -> tuple coordinates, split, swizzle); fromRandom for seeds 0..31 x shapes x densities: reproducible under perturbed global random state, inside the shape, full at density 1.",
+         "Trusted: nests as ground truth; the random module's state is saved/restored per case.", "DESIGN.md §3 C13"),
+ "C14": ("exploration", E2,
+         "For every tree of the stated universes x shape mode (declared / estimated) x leaf default {0,7} x every format assignment in {C,U}^depth x mutable hint, every transform of C08/C09 with every parameter choice is checked for documented rank-id renaming, re-arranged authoritative shape, carried leaf default / per-rank formats / mutable hint, every stored coordinate inside reported shape and active range (iterActive == iterOccupancy); every lazy result of & | ^ - <<, intersection, union, prune, coiter*, project for rank id and active range; unowned fibers with own attributes joining a tensor via fromFiber/setRoot must report the rank's attributes.",
+         "Trusted: the carry-over oracle mc/ref_c14.py fixed by the survey probes q14/q25; with estimated shapes nothing is demanded of the authoritative shape.", "DESIGN.md §3 C14"),
  "C04": ("exploration", E2,
          "Every ordered pair / k-tuple of fibers of the stated small universes (leaf, sub-fiber, tuple-coordinate, mixed-arity, uncompressed-format and n-ary families) is run through the real operators and compared with set algebra, payload identity, mask and freshness oracles; operands and owning tensors are snapshotted before and after. Exhaustive within the bounds, which contain every relative order of the last elements of both operands and every explicit-default placement.",
          "Trusted: the harness's construction of operands through Fiber()/Tensor.fromFiber and raw reads of coords/payloads; nothing is claimed beyond N<=7 coordinates, depth 2, k<=4.", "DESIGN.md §3 C04"),
